@@ -116,14 +116,14 @@ CLAIMED["C14"] = (
 
 CLAIMED["C15"] = (
     "bounded symbolic execution of geometry.displacement / _displacement_orthogonal_box / _displacement_triclinic_box and the box.py fraction helpers (real modules loaded through the SX rewrite) over exact rationals and reals with z3 (linear integer and nonlinear real arithmetic)",
-    "Bounded model checking of the PERIODIC clauses of the property only. Class S: for 5-6 concrete cells, displacement(0, q) for every grid point q differs from q by a lattice vector, and is the shortest image for orthorhombic cells; the triclinic kernel on EVERY real fraction vector in [0,1)^3 returns one of its eight candidates and no other image is shorter than half the smallest cell height; move_inside_box lands in [0,1) fractional and moves by lattice vectors; fraction conversion is inverse. Class E (real numpy on solver-selected concrete inputs, tolerance 2e-4): distance / angle / dihedral / displacement / index variants / centroid equal their float64 definitions and are unchanged by 25 rigid motions, for every argument-shape combination; unit cell <-> box vectors; remove_pbc_from_coord on wrapped chains incl. stacks.",
+    "Bounded model checking of the PERIODIC clauses of the property only. Class S: for 5-6 concrete cells, displacement(0, q) for every grid point q differs from q by a lattice vector, and is the shortest image for orthorhombic cells; the triclinic kernel on EVERY real fraction vector in [0,1)^3 returns one of its eight candidates and no other image is shorter than half the smallest cell height; move_inside_box lands in [0,1) fractional and moves by lattice vectors; fraction conversion is inverse. Class E (real numpy on solver-selected concrete inputs, tolerance 2e-4): distance / angle / dihedral / displacement / index variants / centroid equal their float64 definitions and are unchanged by 25 rigid motions and by the library's own rigid motions (translate / rotate* / align_vectors / orient_principal_components), for every argument-shape combination; periodic index variants equal the coordinate functions with the same box; unit cell <-> box vectors; remove_pbc_from_coord on wrapped chains incl. stacks.",
     "Trusted: vf/sx/rnp.py, the rational numpy stand-in (counterexamples are replayed on real numpy before they count); exact inverse for numpy.linalg.inv; z3 nlsat. Not decided SYMBOLICALLY (trigonometry, LAPACK, float rounding have no encodable arithmetic): the definitions / invariance / cell conversion / reassembly clauses are exercised on concrete menus only (class E); remove_pbc on whole atom arrays with molecules, per-model boxes in displacement and symbolic cell vectors are not covered at all.",
     "DESIGN.md §4 C15")
 
 CLAIMED["C16"] = (
     "bounded symbolic execution of AffineTransformation (apply / as_matrix) and of superimpose()'s centring and mask logic (superimpose.py loaded through the SX rewrite, rotation solver replaced by an arbitrary symbolic matrix) over exact rationals with z3 (polynomial identities)",
-    "Bounded model checking of the ALGEBRAIC clauses of the property only. Class S: for any 3x3 matrix, translations and coordinates (symbolic rationals), apply(x) = R(x + c) + t per model, equal to the 4x4 matrix form; superimpose() with any rotation places the anchor centroid of the mobile structure on that of the fixed one, for every anchor mask of the bound, for arrays and stacks, and the returned transformation reproduces the fitted coordinates. Class E (real numpy / LAPACK on solver-selected concrete inputs): rigid copies of 7 degenerate and regular point sets under 25 rotations are fitted back with a proper orthonormal rotation and RMSD ~ 0 (off-plane atoms are not mirrored); superimpose_without_outliers returns the fit that belongs to its returned anchors (72 parameter combinations).",
-    "Trusted: vf/sx/rnp.py, the rational numpy stand-in (counterexamples are replayed on real numpy), z3; numpy/LAPACK in the E part. NOT decided: RMSD-optimality of the rotation for non-rigid inputs (only necessary conditions: proper rotation, coinciding anchor centroids, exact recovery of rigid copies), RMSD values, superimpose_homologs anchor selection. Those clauses are undecided by this check.",
+    "Bounded model checking of the ALGEBRAIC clauses of the property only. Class S: for any 3x3 matrix, translations and coordinates (symbolic rationals), apply(x) = R(x + c) + t per model, equal to the 4x4 matrix form; superimpose() with any rotation places the anchor centroid of the mobile structure on that of the fixed one, for every anchor mask of the bound, for arrays and stacks, and the returned transformation reproduces the fitted coordinates. Class E (real numpy / LAPACK on solver-selected concrete inputs): rigid copies of 7 degenerate and regular point sets under 25 rotations are fitted back with a proper orthonormal rotation and RMSD ~ 0 (off-plane atoms are not mirrored); superimpose_without_outliers returns the fit that belongs to its returned anchors (72 parameter combinations); superimpose_homologs on synthetic peptides (120 combinations of sequence edit, displaced residues, chains, stack) pairs anchor atoms of corresponding residues and returns the fit that belongs to them; apply() acts alike on integer / float arrays, stack-shaped arrays and atom arrays.",
+    "Trusted: vf/sx/rnp.py, the rational numpy stand-in (counterexamples are replayed on real numpy), z3; numpy/LAPACK in the E part. NOT decided: RMSD-optimality of the rotation for non-rigid inputs (only necessary conditions: proper rotation, coinciding anchor centroids, exact recovery of rigid copies), RMSD values. Those clauses are undecided by this check.",
     "DESIGN.md §4 C16")
 
 NOT_APPLICABLE = {
